@@ -33,6 +33,7 @@ fn level_of(check: &str) -> &'static str {
 
 fn worker(check: &str, tier: Tier, i: usize, n: usize, from: usize, only: Option<&str>) {
     vcore::env::install_panic_hook();
+    vcore::env::set_poison(true);
     enum Item { Ty(vcore::Entry), Seq(&'static str, Box<dyn seqs::SeqOps>), Mut(&'static str, &'static str, vcore::Entry) }
     let all: Vec<Item> = if check == "C16" { seqs::all().into_iter().map(|(id, o)| Item::Seq(id, o)).collect() }
         else if check == "C04" { universe::all().into_iter().map(Item::Ty).chain(mutants::all().into_iter().map(|(f, id, e)| Item::Mut(f, id, e))).collect() }
